@@ -226,6 +226,21 @@ pub async fn apply(w: &World, t: &[&str]) -> Result<Undo, String> {
             let nb = metadoc::set_field(&b, "t", Value::Array(tags))?;
             set(w, &mut undo, &path, Some(nb)).await;
         }
+        ["strip-forge", loc, fields, field, hexval] => {
+            // two sites in one document: authentication fields stripped *and* another field rewritten
+            let path = format!("meta/{loc}");
+            let b = current(w, &path).await.ok_or("absent")?;
+            let keys: Vec<&str> = fields.split(',').collect();
+            let nb = metadoc::strip_fields(&b, &keys)?;
+            let nb = if *field == "s" {
+                let v: u64 = String::from_utf8(crate::check::unhex(hexval).ok_or("hex")?).ok().and_then(|x| x.parse().ok()).ok_or("int")?;
+                metadoc::set_field(&nb, field, Value::Integer(v.into()))?
+            } else {
+                let sv = String::from_utf8(crate::check::unhex(hexval).ok_or("hex")?).map_err(|_| "utf8")?;
+                metadoc::set_field(&nb, field, Value::Text(sv))?
+            };
+            set(w, &mut undo, &path, Some(nb)).await;
+        }
         ["forge-legacy-empty", loc] => {
             // what an attacker without the key can write: an unauthenticated pre-0.9 style document
             // describing an empty object, plus an (empty) legacy payload object
@@ -529,7 +544,7 @@ pub async fn model_compare(w: &World, line: &str, undo: &Undo, model: &mut Model
             };
             // only documents that are still well-typed for serde are comparable: field-level tampers
             let kind = line.split(' ').next().unwrap_or("");
-            if !matches!(kind, "strip" | "setint" | "setnull" | "settext" | "tags" | "swapobj" | "copyobj" | "forge-legacy-empty") {
+            if !matches!(kind, "strip" | "strip-forge" | "setint" | "setnull" | "settext" | "tags" | "swapobj" | "copyobj" | "forge-legacy-empty") {
                 continue;
             }
             let model_line = ask(model, "head");
@@ -598,6 +613,299 @@ pub async fn tamper_and_probe(w: &World, line: &str, out: &mut Outcome, model: O
     let cold = w.cold();
     probe(w, &cold, "cold", line, out, rollback).await;
     probe(w, &warm, "warm", line, out, rollback).await;
+    restore(w, undo).await;
+    true
+}
+
+// ---------------------------------------------------------------------------------------------------
+// Single read paths with an exact verdict (used by the stale-pointer and aligned-cut classes)
+// ---------------------------------------------------------------------------------------------------
+
+#[derive(Clone, Debug)]
+pub enum ReadPath {
+    Get(RangeSpec),
+    Ranges(Vec<(u64, u64)>),
+    Head,
+}
+
+impl ReadPath {
+    pub fn name(&self) -> String {
+        match self {
+            ReadPath::Get(r) => format!("get({})", r.token()),
+            ReadPath::Ranges(rs) => format!("get_ranges({rs:?})"),
+            ReadPath::Head => "head".into(),
+        }
+    }
+    pub fn key(&self) -> &'static str {
+        match self {
+            ReadPath::Get(_) => "get",
+            ReadPath::Ranges(_) => "get_ranges",
+            ReadPath::Head => "head",
+        }
+    }
+}
+
+/// Performs one read; returns (canonical outcome, is it "the bytes/metadata of `want`, exactly — or an error").
+/// A *short* answer is wrong bytes: lengths are compared exactly.
+pub async fn read_exact(store: &Store, loc: &str, p: &ReadPath, want: &[&crate::world::Hist], truth: Option<&crate::world::Truth>) -> (String, bool) {
+    // candidates: (plaintext, size, e_tag, lm)
+    let mut cands: Vec<(&[u8], u64, &Option<String>, i64)> = Vec::new();
+    if let Some(t) = truth {
+        cands.push((&t.plain, t.size, &t.e_tag, t.last_modified_ms));
+    }
+    for h in want {
+        cands.push((&h.plain, h.size, &h.e_tag, h.last_modified_ms));
+    }
+    match p {
+        ReadPath::Get(r) => {
+            let o = get_collect(store, loc, r.opts(false)).await;
+            let sig = format!("{:?}/{}/{:?}", o.range, o.bytes.len(), o.err);
+            let ok = match (o.err, o.range) {
+                (Some(_), None) => true,
+                (None, Some(got)) => cands.iter().any(|(pl, ..)| r.resolve(pl.len() as u64) == Some(got) && o.bytes[..] == pl[got.0 as usize..got.1 as usize]),
+                (Some(_), Some(got)) => cands.iter().any(|(pl, ..)| {
+                    let s = got.0 as usize;
+                    s <= pl.len() && o.bytes.len() <= pl.len() - s && o.bytes[..] == pl[s..s + o.bytes.len()]
+                }),
+                (None, None) => false,
+            };
+            (sig, ok)
+        }
+        ReadPath::Ranges(rs) => {
+            let ranges: Vec<std::ops::Range<u64>> = rs.iter().map(|(s, e)| *s..*e).collect();
+            match store.get_ranges(&Path::from(loc), &ranges).await {
+                Err(e) => (classify(&e).to_string(), true),
+                Ok(v) => {
+                    let sig = format!("ok {:?}", v.iter().map(|b| b.len()).collect::<Vec<_>>());
+                    let ok = cands.iter().any(|(pl, ..)| {
+                        v.len() == rs.len()
+                            && rs.iter().zip(&v).all(|((s, e), b)| (*e as usize) <= pl.len() && s < e && b.len() as u64 == e - s && b[..] == pl[*s as usize..*e as usize])
+                    });
+                    (sig, ok)
+                }
+            }
+        }
+        ReadPath::Head => match store.head(&Path::from(loc)).await {
+            Err(e) => (classify(&e).to_string(), true),
+            Ok(m) => {
+                let ok = cands.iter().any(|(_, size, et, lm)| m.size == *size && &m.e_tag == *et && m.last_modified.timestamp_millis() == *lm);
+                (format!("ok {} {:?}", m.size, m.e_tag), ok)
+            }
+        },
+    }
+}
+
+fn read_paths(size: u64, c: u64) -> Vec<ReadPath> {
+    let mut v: Vec<ReadPath> = probe_ranges(size, c).into_iter().map(ReadPath::Get).collect();
+    if size > 0 {
+        v.push(ReadPath::Ranges(vec![(0, size)]));
+        v.push(ReadPath::Ranges(vec![(size - 1, size), (0, 1)]));
+        if size > c {
+            v.push(ReadPath::Ranges(vec![(c - 1, c + 1)]));
+        }
+    }
+    v.push(ReadPath::Head);
+    v
+}
+
+/// Tamper class **stale-pointer re-resolve on a warm store** (`stale-repoint <k> <src>`).
+///
+/// One long-lived store instance has `k`'s document in its metadata cache. Then (1) the payload object of
+/// the cached generation disappears, which forces the read path's NotFound retry (`refresh_meta`), and
+/// (2) `meta/<k>` has meanwhile been replaced by `<src>` — another key's sealed document, a document of an
+/// earlier generation, or a doctored copy of `k`'s own — with matching ciphertext placed under
+/// `gen/<k>/<that generation>`. Every read path, each on its *own* warm instance (only the first read of
+/// an instance reaches the retry), must fail or return `k`'s own content.
+pub async fn stale_repoint(w: &World, line: &str, out: &mut Outcome) -> bool {
+    let toks: Vec<&str> = line.split(' ').collect();
+    let ["stale-repoint", k, src] = toks.as_slice() else { return false };
+    let Some(t) = w.truth.get(*k).cloned() else {
+        out.hit("tamper:not-applicable");
+        return false;
+    };
+    let own_meta = current(w, &format!("meta/{k}")).await;
+    // replacement document and the ciphertext that goes with it
+    let (doc_bytes, payload, same_key_commit): (Vec<u8>, Vec<u8>, Option<crate::world::Hist>) = if let Some(other) = src.strip_prefix("meta:") {
+        let Some(ot) = w.truth.get(other) else { return false };
+        let (Some(d), Some(p)) = (current(w, &format!("meta/{other}")).await, current(w, &ot.payload_path).await) else { return false };
+        (d, p, None)
+    } else if let Some(j) = src.strip_prefix("hmeta:") {
+        let Some(h) = j.parse::<usize>().ok().and_then(|j| w.history.get(j)) else { return false };
+        (h.meta_bytes.clone(), h.payload_bytes.clone(), (h.loc == *k).then(|| h.clone()))
+    } else if *src == "own-short" || *src == "own-stripped" {
+        let (Some(d), Some(p)) = (own_meta.clone(), current(w, &t.payload_path).await) else { return false };
+        if t.size == 0 {
+            out.hit("tamper:not-applicable");
+            return false;
+        }
+        let d = if *src == "own-stripped" { metadoc::strip_fields(&d, &["an", "at"]).unwrap_or(d) } else { d };
+        let Ok(d) = metadoc::set_field(&d, "s", Value::Integer((t.size - 1).into())) else { return false };
+        let Ok(d) = metadoc::set_field(&d, "g", Value::Text("0000018bcfe56800-0badf00d".into())) else { return false };
+        (d, p, None)
+    } else {
+        return false;
+    };
+    if Some(&doc_bytes) == own_meta.as_ref() {
+        out.hit("tamper:not-applicable");
+        return false;
+    }
+    let new_ptr = match metadoc::decode(&doc_bytes) {
+        Ok(d) => match d.g {
+            Some(g) => format!("gen/{k}/{g}"),
+            None => format!("data/{k}"),
+        },
+        Err(_) => return false,
+    };
+    let paths = read_paths(t.size, w.chunk);
+    // one warm instance per read path, warmed *before* the modification
+    let mut warm: Vec<Store> = Vec::new();
+    for i in 0..paths.len() {
+        let s = w.cold();
+        if i % 2 == 0 {
+            let _ = s.head(&Path::from(*k)).await;
+        } else {
+            let _ = get_collect(&s, k, GetOptions::new()).await;
+        }
+        warm.push(s);
+    }
+    // what each path answers before the modification (a plan error on the cached document never reaches
+    // the payload, hence never the retry)
+    let mut base: Vec<String> = Vec::new();
+    {
+        let s0 = w.cold();
+        for p in &paths {
+            base.push(read_exact(&s0, k, p, &[], Some(&t)).await.0);
+        }
+    }
+    let mut undo = Undo::new();
+    set(w, &mut undo, &t.payload_path, None).await;
+    set(w, &mut undo, &format!("meta/{k}"), Some(doc_bytes)).await;
+    set(w, &mut undo, &new_ptr, Some(payload)).await;
+    out.hit("tamper:stale-repoint");
+    out.tampers += 1;
+    let want: Vec<&crate::world::Hist> = same_key_commit.iter().collect();
+    for (i, p) in paths.iter().enumerate() {
+        let (warm_sig, ok) = read_exact(&warm[i], k, p, &want, Some(&t)).await;
+        let cold = w.cold();
+        let (cold_sig, cold_ok) = read_exact(&cold, k, p, &want, Some(&t)).await;
+        out.evals += 2;
+        out.hit(&format!("oracle:stale-repoint:{}:{}", p.key(), if warm_sig.starts_with("err") || warm_sig.contains("Some(\"err") { "error" } else { "served" }));
+        if !ok {
+            out.fail(Failure::new(
+                &format!("stale-repoint:{}", p.key()),
+                &format!("[warm instance, cached generation gone, `meta/{k}` replaced by {src}] {} on `{k}` returned content that is not `{k}`'s (strict={})", p.name(), w.strict),
+                Some(line),
+                "an error, or the bytes / metadata written under this key",
+                &warm_sig,
+            ));
+        }
+        if !cold_ok {
+            out.fail(Failure::new(&format!("stale-repoint-cold:{}", p.key()), &format!("[cold instance] {} on `{k}` after `{line}` returned foreign content", p.name()), Some(line), "an error, or the bytes written under this key", &cold_sig));
+        }
+        // model: a warm read whose cached payload is gone re-resolves and then behaves exactly like a cold
+        // read (`getObjectWarm_retry_eq_cold`)
+        out.model_compared += 1;
+        out.hit("tie:warm-retry-equals-cold");
+        let base_failed = base[i].starts_with("err") || base[i].contains("Some(\"err");
+        let expect = if base_failed { &base[i] } else { &cold_sig };
+        if &warm_sig != expect {
+            out.disagree(&format!("warm read after a forced re-resolve: {} on `{k}` after `{line}` (before the modification: {})", p.name(), base[i]), &format!("{expect} (= {})", if base_failed { "the plan error on the cached document" } else { "a cold read" }), &warm_sig);
+        }
+    }
+    restore(w, undo).await;
+    true
+}
+
+/// Tamper class **chunk-aligned truncation** (`aligned-cut <loc> <cut> <budget>`): the ciphertext object is cut
+/// at a chunk boundary (every surviving chunk still authenticates). Every range that starts unaligned
+/// inside a surviving chunk and ends past the cut — alone, and together with 1–2 other ranges in both
+/// orders — through `get_ranges`, and as a ranged `get`, must be an error or exactly the requested bytes;
+/// a short answer is wrong bytes.
+pub async fn aligned_cut(w: &World, line: &str, out: &mut Outcome, mut model: Option<&mut ModelProc>) -> bool {
+    let toks: Vec<&str> = line.split(' ').collect();
+    let ["aligned-cut", loc, cut, budget] = toks.as_slice() else { return false };
+    let (Ok(cut), Ok(budget)) = (cut.parse::<u64>(), budget.parse::<usize>()) else { return false };
+    let Some(t) = w.truth.get(*loc).cloned() else { return false };
+    let c = w.chunk;
+    let Some(payload) = current(w, &t.payload_path).await else { return false };
+    if cut % c != 0 || cut >= payload.len() as u64 {
+        out.hit("tamper:not-applicable");
+        return false;
+    }
+    let mut undo = Undo::new();
+    set(w, &mut undo, &t.payload_path, Some(payload[..cut as usize].to_vec())).await;
+    out.hit("tamper:aligned-cut");
+    out.tampers += 1;
+    let size = t.size;
+    // all (start, end): start unaligned before the cut, end beyond it
+    let mut all: Vec<(u64, u64)> = Vec::new();
+    let total = (cut - cut / c).saturating_mul(size - cut);
+    if total <= budget as u64 {
+        for s in 0..cut {
+            if s % c != 0 {
+                for e in cut + 1..=size {
+                    all.push((s, e));
+                }
+            }
+        }
+    } else {
+        // deterministic sample; two thirds are the short ranges around the cut (length <= cut - aligned start)
+        let mut rng = vh_common::Rng::new(cut ^ (size << 20) ^ c);
+        let mut seen = std::collections::BTreeSet::new();
+        let mut tries = 0;
+        while all.len() < budget && tries < budget * 20 {
+            tries += 1;
+            let short = all.len() % 3 != 2;
+            let s = if short && rng.chance(1, 2) { cut - 1 - rng.below(c.min(cut)) } else { rng.below(cut) };
+            if s % c != 0 {
+                let max_e = if short { size.min(s / c * c + cut - s / c * c + (s - s / c * c)).min(s + (cut - s / c * c)) } else { size };
+                if max_e > cut {
+                    let e = cut + 1 + rng.below(max_e - cut);
+                    if seen.insert((s, e)) {
+                        all.push((s, e));
+                    }
+                }
+            }
+        }
+    }
+    let store = w.cold();
+    let inside = if cut >= 2 { Some((0u64, (cut / 2).max(1))) } else { None };
+    for (s, e) in all {
+        let mut variants: Vec<ReadPath> = vec![ReadPath::Ranges(vec![(s, e)]), ReadPath::Get(RangeSpec::Bounded(s, e))];
+        if let Some(inr) = inside {
+            variants.push(ReadPath::Ranges(vec![inr, (s, e)]));
+            variants.push(ReadPath::Ranges(vec![(s, e), inr]));
+            variants.push(ReadPath::Ranges(vec![(s, (s + 1).min(cut)), (s, e), inr]));
+            variants.push(ReadPath::Ranges(vec![inr, (s, e), (s, e)]));
+        }
+        for (vi, p) in variants.iter().enumerate() {
+            let (sig, ok) = read_exact(&store, loc, p, &[], Some(&t)).await;
+            out.evals += 1;
+            out.hit(&format!("oracle:aligned-cut:{}:{}", p.key(), if sig.starts_with("err") || sig.contains("Some(\"err") { "error" } else { "served" }));
+            if !ok {
+                out.fail(Failure::new(
+                    &format!("aligned-cut:{}", p.key()),
+                    &format!("{} on `{loc}` (size {size}, chunk {c}) after the ciphertext was cut to {cut} bytes returned other bytes than requested (a short answer counts)", p.name()),
+                    Some(line),
+                    "an error, or exactly the requested plaintext bytes",
+                    &sig,
+                ));
+            }
+            if vi == 0
+                && size <= 4096
+                && let Some(m) = model.as_deref_mut()
+            {
+                let ans = m.ask(&format!("ranges {size} {c} 0+{cut} {s}:{e}"));
+                let model_class = ans.split(' ').next().unwrap_or("").to_string();
+                let impl_class = if sig.starts_with("ok") { "ok".to_string() } else { sig.clone() };
+                out.model_compared += 1;
+                out.hit("tie:aligned-cut-get_ranges");
+                if model_class != impl_class {
+                    out.disagree(&format!("get_ranges([{s}..{e}]) on `{loc}` (size {size}, chunk {c}) with the payload cut to {cut}"), &ans, &sig);
+                }
+            }
+        }
+    }
     restore(w, undo).await;
     true
 }
